@@ -43,6 +43,40 @@ def exit_member_facts(F, S, fn, entry=frozenset()):
     return out
 
 
+_callers_cache = {}
+
+
+def callers_map(F):
+    key = id(F)
+    if key not in _callers_cache:
+        cm = {}
+        for fn in F.functions.values():
+            for nd in fn.all_calls():
+                for cal in F.callees(nd):
+                    cm.setdefault(cal.key, set()).add(fn.key)
+        _callers_cache[key] = cm
+    return _callers_cache[key]
+
+
+def ctor_only_functions(F, cls):
+    """Non-public member functions of cls all of whose (transitive) callers are constructors of cls."""
+    cm = callers_map(F)
+    rec = F.record(cls)
+    access = {m["key"]: m["access"] for m in rec["methods"]}
+    cands = {f.key for f in F.functions.values() if f.cls == cls and not f.d.get("ctor") and access.get(f.key) != "public"}
+    ctors = {f.key for f in F.functions.values() if f.cls == cls and f.d.get("ctor")}
+    good = set()
+    changed = True
+    while changed:
+        changed = False
+        for k in cands - good:
+            cs = cm.get(k, set())
+            if cs and all(c in ctors or c in good for c in cs):
+                good.add(k)
+                changed = True
+    return good
+
+
 def class_invariants(F, S, cls, extra_ok_writers=()):
     """Facts over this-members that (1) hold at the normal exit of every non-copy constructor,
     (2) mention only members that no non-constructor function of the class stores to (const
@@ -59,16 +93,19 @@ def class_invariants(F, S, cls, extra_ok_writers=()):
         fx = exit_member_facts(F, S, c)
         common = fx if common is None else (common & fx)
     common = common or set()
-    # members written outside constructors
+    # members written outside constructors (functions called only from constructors count as constructor code)
+    ctor_only = ctor_only_functions(F, cls)
     written = set()
     for fn in F.functions.values():
         if fn.cls != cls or fn.d.get("ctor"):
             continue
-        if fn.key in extra_ok_writers:
+        if fn.key in extra_ok_writers or fn.key in ctor_only:
             continue
         for it in S.writes(fn):
             if it[0] == "this":
                 written.add(it[1])
+            elif it[0] == "this@":
+                written.add(it[1] + "[]")
     notes = []
     out = set()
     for f in common:
